@@ -1,7 +1,1689 @@
-//! C21: not implemented yet.
+//! C21: schema changes behave as declared and persist.
+//!
+//! Histories interleave DDL (CREATE/DROP TABLE incl. re-creating a dropped name, CREATE/DROP INDEX,
+//! CREATE/DROP SCHEMA with qualified names, TRUNCATE, ALTER TABLE ADD / DROP / RENAME COLUMN) with simple DML
+//! and reopen at random points. A small catalog+rows model (this file) predicts, for every statement, ok/error
+//! and the resulting shape and row bag of the table. Sub-assertions:
+//!   ddl_outcome           the DDL statement itself succeeds / fails as the model predicts
+//!   existing_rows         right after a DDL: SELECT * and SELECT <names> (width, bag), COUNT(*), index lookups
+//!   future_rows           DML and SELECTs using the new shape work, the old shape errors
+//!   catalog_after_reopen  same shape and data after close + Database::open
+//! Signature = C21/<ddl kind>/<assertion>/<variant>:<what>. The ddl kind is the last DDL applied to the table.
+//! A failing history is shrunk (ddmin over its operations, re-run on a fresh database) before it is reported.
+use crate::report::Ctx;
+use crate::rng::{fnv, Rng};
+use crate::sqlm::cmp::bag_diff;
+use crate::sqlm::db::{is_panic, panic_tag, Db, Outcome, Scratch};
+use crate::sqlm::val::{rows_json, Row, V};
 use crate::Args;
+use serde_json::{json, Value as J};
+use std::cmp::Ordering;
+use std::collections::{BTreeMap, BTreeSet};
+use std::path::Path;
 
-pub fn run(_a: &Args) -> i32 {
-    println!("INCONCLUSIVE property=C21 reason=check not implemented yet");
-    2
+// ---------------------------------------------------------------- model
+
+#[derive(Clone, Copy, Debug, PartialEq, Eq, Hash)]
+pub enum Ty {
+    Big,
+    Int,
+    Dbl,
+    Text,
+    Bool,
+}
+
+impl Ty {
+    fn sql(&self) -> &'static str {
+        match self {
+            Ty::Big => "BIGINT",
+            Ty::Int => "INT",
+            Ty::Dbl => "DOUBLE",
+            Ty::Text => "TEXT",
+            Ty::Bool => "BOOLEAN",
+        }
+    }
+    fn letter(&self) -> char {
+        match self {
+            Ty::Big => 'b',
+            Ty::Int => 'i',
+            Ty::Dbl => 'd',
+            Ty::Text => 'x',
+            Ty::Bool => 'o',
+        }
+    }
+    fn tag(&self) -> &'static str {
+        match self {
+            Ty::Big => "bigint",
+            Ty::Int => "int",
+            Ty::Dbl => "double",
+            Ty::Text => "text",
+            Ty::Bool => "bool",
+        }
+    }
+}
+
+#[derive(Clone, Debug)]
+pub struct MCol {
+    name: String,
+    ty: Ty,
+    default: Option<V>,
+    not_null: bool,
+    pk: bool,
+}
+
+impl MCol {
+    fn def_sql(&self) -> String {
+        let mut s = format!("{} {}", self.name, self.ty.sql());
+        if self.pk {
+            s.push_str(" PRIMARY KEY");
+        }
+        if self.not_null && !self.pk {
+            s.push_str(" NOT NULL");
+        }
+        if let Some(d) = &self.default {
+            s.push_str(" DEFAULT ");
+            s.push_str(&default_sql(d));
+        }
+        s
+    }
+}
+
+fn default_sql(v: &V) -> String {
+    match v {
+        V::Int(i) => format!("{}", i),
+        V::Float(f) => format!("{:?}", f),
+        V::Text(s) => format!("'{}'", s),
+        V::Bool(b) => (if *b { "TRUE" } else { "FALSE" }).to_string(),
+        _ => "NULL".into(),
+    }
+}
+
+#[derive(Clone, Debug)]
+struct MIdx {
+    name: String,
+    col: String,
+}
+
+#[derive(Clone, Debug)]
+struct MTab {
+    q: String,
+    cols: Vec<MCol>,
+    rows: Vec<Row>,
+    idx: Vec<MIdx>,
+    /// last DDL applied to this table and its variant (for signatures)
+    last_ddl: &'static str,
+    variant: String,
+    /// finer variant (position, qualified name, type) used for coverage counters only
+    cov: String,
+    /// the column the last DDL touched (added / renamed)
+    touched: Option<String>,
+}
+
+impl MTab {
+    fn col_pos(&self, name: &str) -> Option<usize> {
+        self.cols.iter().position(|c| c.name == name)
+    }
+    fn pk_pos(&self) -> Option<usize> {
+        self.cols.iter().position(|c| c.pk)
+    }
+}
+
+#[derive(Clone, Debug, Default)]
+struct Model {
+    schemas: BTreeSet<String>,
+    tabs: BTreeMap<String, MTab>,
+    /// names of tables dropped earlier in this history (re-creation is a variant)
+    dropped: BTreeSet<String>,
+}
+
+fn schema_of(q: &str) -> Option<&str> {
+    q.split_once('.').map(|x| x.0)
+}
+
+fn eq_sql(a: &V, b: &V) -> bool {
+    a.sql_cmp(b) == Some(Ordering::Equal)
+}
+
+// ---------------------------------------------------------------- operations
+
+#[derive(Clone, Debug)]
+enum Op {
+    CreateSchema { name: String, ine: bool },
+    DropSchema { name: String, ie: bool },
+    CreateTable { q: String, cols: Vec<MCol>, ine: bool },
+    DropTable { q: String, ie: bool },
+    CreateIndex { name: String, q: String, col: String, ine: bool },
+    DropIndex { name: String, ie: bool },
+    Truncate { q: String, kw_table: bool },
+    AddColumn { q: String, col: MCol },
+    DropColumn { q: String, col: String, ie: bool },
+    RenameColumn { q: String, old: String, new: String },
+    Insert { q: String, cols: Vec<String>, rows: Vec<Row> },
+    Update { q: String, set_col: String, val: V, key_col: String, key: V },
+    Delete { q: String, key_col: String, key: V },
+    /// cols empty = `*`
+    Select { q: String, cols: Vec<String>, filter: Option<(String, V)> },
+    Reopen { close: bool },
+}
+
+impl Op {
+    fn kind(&self) -> &'static str {
+        match self {
+            Op::CreateSchema { .. } => "create_schema",
+            Op::DropSchema { .. } => "drop_schema",
+            Op::CreateTable { .. } => "create_table",
+            Op::DropTable { .. } => "drop_table",
+            Op::CreateIndex { .. } => "create_index",
+            Op::DropIndex { .. } => "drop_index",
+            Op::Truncate { .. } => "truncate",
+            Op::AddColumn { .. } => "add_column",
+            Op::DropColumn { .. } => "drop_column",
+            Op::RenameColumn { .. } => "rename_column",
+            Op::Insert { .. } => "insert",
+            Op::Update { .. } => "update",
+            Op::Delete { .. } => "delete",
+            Op::Select { .. } => "select",
+            Op::Reopen { .. } => "reopen",
+        }
+    }
+    fn is_ddl(&self) -> bool {
+        !matches!(self, Op::Insert { .. } | Op::Update { .. } | Op::Delete { .. } | Op::Select { .. } | Op::Reopen { .. })
+    }
+    fn table(&self) -> Option<&str> {
+        match self {
+            Op::CreateTable { q, .. } | Op::DropTable { q, .. } | Op::CreateIndex { q, .. } | Op::Truncate { q, .. } | Op::AddColumn { q, .. } | Op::DropColumn { q, .. } | Op::RenameColumn { q, .. } | Op::Insert { q, .. } | Op::Update { q, .. } | Op::Delete { q, .. } | Op::Select { q, .. } => Some(q),
+            _ => None,
+        }
+    }
+    fn sql(&self) -> String {
+        match self {
+            Op::CreateSchema { name, ine } => format!("CREATE SCHEMA {}{}", if *ine { "IF NOT EXISTS " } else { "" }, name),
+            Op::DropSchema { name, ie } => format!("DROP SCHEMA {}{}", if *ie { "IF EXISTS " } else { "" }, name),
+            Op::CreateTable { q, cols, ine } => format!("CREATE TABLE {}{} ({})", if *ine { "IF NOT EXISTS " } else { "" }, q, cols.iter().map(|c| c.def_sql()).collect::<Vec<_>>().join(", ")),
+            Op::DropTable { q, ie } => format!("DROP TABLE {}{}", if *ie { "IF EXISTS " } else { "" }, q),
+            Op::CreateIndex { name, q, col, ine } => format!("CREATE INDEX {}{} ON {} ({})", if *ine { "IF NOT EXISTS " } else { "" }, name, q, col),
+            Op::DropIndex { name, ie } => format!("DROP INDEX {}{}", if *ie { "IF EXISTS " } else { "" }, name),
+            Op::Truncate { q, kw_table } => format!("TRUNCATE {}{}", if *kw_table { "TABLE " } else { "" }, q),
+            Op::AddColumn { q, col } => format!("ALTER TABLE {} ADD COLUMN {}", q, col.def_sql()),
+            Op::DropColumn { q, col, ie } => format!("ALTER TABLE {} DROP COLUMN {}{}", q, if *ie { "IF EXISTS " } else { "" }, col),
+            Op::RenameColumn { q, old, new } => format!("ALTER TABLE {} RENAME COLUMN {} TO {}", q, old, new),
+            Op::Insert { q, cols, rows } => format!("INSERT INTO {} ({}) VALUES {}", q, cols.join(", "), rows.iter().map(|r| format!("({})", r.iter().map(|v| v.sql()).collect::<Vec<_>>().join(", "))).collect::<Vec<_>>().join(", ")),
+            Op::Update { q, set_col, val, key_col, key } => format!("UPDATE {} SET {} = {} WHERE {} = {}", q, set_col, val.sql(), key_col, key.sql()),
+            Op::Delete { q, key_col, key } => format!("DELETE FROM {} WHERE {} = {}", q, key_col, key.sql()),
+            Op::Select { q, cols, filter } => format!("SELECT {} FROM {}{}", if cols.is_empty() { "*".to_string() } else { cols.join(", ") }, q, filter.as_ref().map(|(c, v)| format!(" WHERE {} = {}", c, v.sql())).unwrap_or_default()),
+            Op::Reopen { close } => (if *close { "-- close(); Database::open" } else { "-- drop handle; Database::open" }).to_string(),
+        }
+    }
+    /// abbreviated SQL for replay files (long text literals elided)
+    fn short_sql(&self) -> String {
+        let s = self.sql();
+        if s.len() <= 400 {
+            return s;
+        }
+        // elide runs of the padding character
+        let mut out = String::new();
+        let mut run = 0usize;
+        for ch in s.chars() {
+            if ch == '~' {
+                run += 1;
+                continue;
+            }
+            if run > 0 {
+                out.push_str(&format!("<~x{}>", run));
+                run = 0;
+            }
+            out.push(ch);
+        }
+        if run > 0 {
+            out.push_str(&format!("<~x{}>", run));
+        }
+        out
+    }
+}
+
+/// what the model predicts for a statement
+#[derive(Debug)]
+enum Expect {
+    /// not executed (behaviour undocumented or precondition of the generator not met)
+    Skip,
+    Err(&'static str),
+    Ok,
+    Affected(usize),
+    Rows(Vec<Row>),
+}
+
+impl Model {
+    fn new() -> Model {
+        Model::default()
+    }
+    fn schema_ok(&self, q: &str) -> bool {
+        match schema_of(q) {
+            None => true,
+            Some(s) => self.schemas.contains(s),
+        }
+    }
+    fn index_exists(&self, name: &str) -> bool {
+        self.tabs.values().any(|t| t.idx.iter().any(|i| i.name == name))
+    }
+
+    /// apply the operation to the model and say what TurDB must do
+    fn apply(&mut self, op: &Op) -> Expect {
+        match op {
+            Op::Reopen { .. } => Expect::Ok,
+            Op::CreateSchema { name, ine } => {
+                if self.schemas.contains(name) {
+                    return if *ine { Expect::Ok } else { Expect::Err("schema exists") };
+                }
+                self.schemas.insert(name.clone());
+                Expect::Ok
+            }
+            Op::DropSchema { name, ie } => {
+                if !self.schemas.contains(name) {
+                    return if *ie { Expect::Ok } else { Expect::Err("schema missing") };
+                }
+                if self.tabs.keys().any(|q| schema_of(q) == Some(name.as_str())) {
+                    return Expect::Skip; // CASCADE/RESTRICT behaviour is not documented
+                }
+                self.schemas.remove(name);
+                Expect::Ok
+            }
+            Op::CreateTable { q, cols, ine } => {
+                if !self.schema_ok(q) {
+                    return Expect::Err("schema missing");
+                }
+                if self.tabs.contains_key(q) {
+                    return if *ine { Expect::Ok } else { Expect::Err("table exists") };
+                }
+                let recreated = self.dropped.contains(q);
+                let mut variant = String::from(if recreated { "recreated" } else { "fresh" });
+                if cols.iter().any(|c| c.ty == Ty::Text) {
+                    variant.push_str("_with_text");
+                }
+                let cov = format!("{}{}", variant, if schema_of(q).is_some() { "_qualified" } else { "" });
+                self.tabs.insert(q.clone(), MTab { q: q.clone(), cols: cols.clone(), rows: vec![], idx: vec![], last_ddl: "create_table", variant, cov, touched: None });
+                Expect::Ok
+            }
+            Op::DropTable { q, ie } => {
+                if !self.tabs.contains_key(q) {
+                    return if *ie { Expect::Ok } else { Expect::Err("table missing") };
+                }
+                self.tabs.remove(q);
+                self.dropped.insert(q.clone());
+                Expect::Ok
+            }
+            Op::CreateIndex { name, q, col, ine } => {
+                let exists = self.index_exists(name);
+                let Some(t) = self.tabs.get_mut(q) else { return Expect::Err("table missing") };
+                if t.col_pos(col).is_none() {
+                    return Expect::Err("column missing");
+                }
+                if exists && !t.idx.iter().any(|i| &i.name == name) {
+                    return Expect::Skip; // same index name on another table: not documented
+                }
+                if exists {
+                    if *ine {
+                        t.last_ddl = "create_index";
+                        t.variant = "if_not_exists_existing".into();
+                        t.cov.clear();
+                        t.touched = None;
+                        return Expect::Ok;
+                    }
+                    return Expect::Err("index exists");
+                }
+                t.idx.push(MIdx { name: name.clone(), col: col.clone() });
+                t.last_ddl = "create_index";
+                t.variant = (if t.rows.is_empty() { "empty_table" } else { "populated" }).to_string();
+                t.cov.clear();
+                t.touched = None;
+                Expect::Ok
+            }
+            Op::DropIndex { name, ie } => {
+                for t in self.tabs.values_mut() {
+                    if let Some(p) = t.idx.iter().position(|i| &i.name == name) {
+                        t.idx.remove(p);
+                        t.last_ddl = "drop_index";
+                        t.variant = "plain".into();
+                        t.cov.clear();
+                        t.touched = None;
+                        return Expect::Ok;
+                    }
+                }
+                if *ie {
+                    Expect::Ok
+                } else {
+                    Expect::Err("index missing")
+                }
+            }
+            Op::Truncate { q, .. } => {
+                let Some(t) = self.tabs.get_mut(q) else { return Expect::Err("table missing") };
+                t.last_ddl = "truncate";
+                t.variant = (if t.idx.is_empty() { "plain" } else { "indexed" }).to_string();
+                t.cov.clear();
+                if t.rows.iter().any(|r| r.iter().any(|v| matches!(v, V::Text(s) if s.len() >= 900))) {
+                    t.variant.push_str("_long_text");
+                }
+                t.touched = None;
+                t.rows.clear();
+                Expect::Ok
+            }
+            Op::AddColumn { q, col } => {
+                let Some(t) = self.tabs.get_mut(q) else { return Expect::Err("table missing") };
+                if t.col_pos(&col.name).is_some() {
+                    return Expect::Err("duplicate column");
+                }
+                if col.not_null && col.default.is_none() && !t.rows.is_empty() {
+                    return Expect::Skip; // undocumented
+                }
+                let fill = col.default.clone().unwrap_or(V::Null);
+                for r in t.rows.iter_mut() {
+                    r.push(fill.clone());
+                }
+                t.last_ddl = "add_column";
+                t.variant = match (col.default.is_some(), col.not_null) {
+                    (true, true) => "not_null_default",
+                    (true, false) => "with_default",
+                    (false, true) => "not_null_empty_table",
+                    (false, false) => "no_default",
+                }
+                .to_string();
+                t.cov = format!("{}_{}", t.variant, col.ty.tag());
+                t.touched = Some(col.name.clone());
+                t.cols.push(col.clone());
+                Expect::Ok
+            }
+            Op::DropColumn { q, col, ie } => {
+                let Some(t) = self.tabs.get_mut(q) else { return Expect::Err("table missing") };
+                let Some(p) = t.col_pos(col) else {
+                    return if *ie { Expect::Ok } else { Expect::Err("column missing") };
+                };
+                if t.cols[p].pk || t.cols.len() <= 1 {
+                    return Expect::Skip;
+                }
+                let pos = if p == 0 {
+                    "first"
+                } else if p + 1 == t.cols.len() {
+                    "last"
+                } else {
+                    "middle"
+                };
+                let indexed = t.idx.iter().any(|i| &i.name != "" && &i.col == col);
+                t.idx.retain(|i| &i.col != col);
+                t.cols.remove(p);
+                for r in t.rows.iter_mut() {
+                    r.remove(p);
+                }
+                t.last_ddl = "drop_column";
+                t.variant = (if indexed { "indexed_column" } else { "plain" }).to_string();
+                t.cov = format!("{}_{}", pos, t.variant);
+                t.touched = None;
+                Expect::Ok
+            }
+            Op::RenameColumn { q, old, new } => {
+                let Some(t) = self.tabs.get_mut(q) else { return Expect::Err("table missing") };
+                let Some(p) = t.col_pos(old) else { return Expect::Err("column missing") };
+                if t.col_pos(new).is_some() {
+                    return Expect::Skip;
+                }
+                let indexed = t.idx.iter().any(|i| &i.col == old);
+                for i in t.idx.iter_mut() {
+                    if &i.col == old {
+                        i.col = new.clone();
+                    }
+                }
+                t.cols[p].name = new.clone();
+                t.last_ddl = "rename_column";
+                t.cov.clear();
+                t.variant = (if t.cols[p].pk {
+                    "pk_column"
+                } else if indexed {
+                    "indexed_column"
+                } else {
+                    "plain"
+                })
+                .to_string();
+                t.touched = Some(new.clone());
+                Expect::Ok
+            }
+            Op::Insert { q, cols, rows } => {
+                let Some(t) = self.tabs.get_mut(q) else { return Expect::Err("table missing") };
+                let mut pos = vec![];
+                for c in cols {
+                    match t.col_pos(c) {
+                        Some(p) => pos.push(p),
+                        None => return Expect::Err("column missing"),
+                    }
+                }
+                let mut new_rows = vec![];
+                for r in rows {
+                    let mut full: Vec<Option<V>> = vec![None; t.cols.len()];
+                    for (i, p) in pos.iter().enumerate() {
+                        full[*p] = Some(r[i].clone());
+                    }
+                    let mut out = vec![];
+                    for (i, c) in t.cols.iter().enumerate() {
+                        match full[i].take() {
+                            Some(v) => {
+                                if v.is_null() && (c.not_null || c.pk || c.default.is_some()) {
+                                    return Expect::Skip; // not generated; NULL into DEFAULT column is a dialect point
+                                }
+                                out.push(v)
+                            }
+                            None => {
+                                if c.pk {
+                                    return Expect::Skip;
+                                }
+                                match &c.default {
+                                    Some(d) => out.push(d.clone()),
+                                    None => {
+                                        if c.not_null {
+                                            return Expect::Err("not null column omitted");
+                                        }
+                                        out.push(V::Null)
+                                    }
+                                }
+                            }
+                        }
+                    }
+                    new_rows.push(out);
+                }
+                // primary keys are globally unique by construction; a clash can only arise while shrinking
+                if let Some(pk) = t.pk_pos() {
+                    for r in &new_rows {
+                        if t.rows.iter().any(|o| eq_sql(&o[pk], &r[pk])) {
+                            return Expect::Skip;
+                        }
+                    }
+                }
+                let n = new_rows.len();
+                t.rows.extend(new_rows);
+                Expect::Affected(n)
+            }
+            Op::Update { q, set_col, val, key_col, key } => {
+                let Some(t) = self.tabs.get_mut(q) else { return Expect::Err("table missing") };
+                let (Some(sp), Some(kp)) = (t.col_pos(set_col), t.col_pos(key_col)) else { return Expect::Err("column missing") };
+                if t.cols[sp].pk || (val.is_null() && (t.cols[sp].not_null || t.cols[sp].default.is_some())) {
+                    return Expect::Skip;
+                }
+                if t.idx.iter().any(|i| &i.col == set_col) {
+                    // UPDATE does not maintain secondary indexes (a DML defect owned by other properties): keep it out
+                    return Expect::Skip;
+                }
+                let mut n = 0;
+                for r in t.rows.iter_mut() {
+                    if eq_sql(&r[kp], key) {
+                        r[sp] = val.clone();
+                        n += 1;
+                    }
+                }
+                Expect::Affected(n)
+            }
+            Op::Delete { q, key_col, key } => {
+                let Some(t) = self.tabs.get_mut(q) else { return Expect::Err("table missing") };
+                let Some(kp) = t.col_pos(key_col) else { return Expect::Err("column missing") };
+                let before = t.rows.len();
+                t.rows.retain(|r| !eq_sql(&r[kp], key));
+                Expect::Affected(before - t.rows.len())
+            }
+            Op::Select { q, cols, filter } => {
+                let Some(t) = self.tabs.get(q) else { return Expect::Err("table missing") };
+                let mut pos = vec![];
+                for c in cols {
+                    match t.col_pos(c) {
+                        Some(p) => pos.push(p),
+                        None => return Expect::Err("column missing"),
+                    }
+                }
+                let fp = match filter {
+                    Some((c, _)) => match t.col_pos(c) {
+                        Some(p) => Some(p),
+                        None => return Expect::Err("column missing"),
+                    },
+                    None => None,
+                };
+                let rows: Vec<Row> = t
+                    .rows
+                    .iter()
+                    .filter(|r| match (fp, filter) {
+                        (Some(p), Some((_, v))) => eq_sql(&r[p], v),
+                        _ => true,
+                    })
+                    .map(|r| if pos.is_empty() { r.clone() } else { pos.iter().map(|p| r[*p].clone()).collect() })
+                    .collect();
+                Expect::Rows(rows)
+            }
+        }
+    }
+}
+
+// ---------------------------------------------------------------- failures
+
+#[derive(Clone, Debug)]
+struct Fail {
+    kind: String,
+    assertion: &'static str,
+    /// `<variant>:<what>`
+    detail: String,
+    info: J,
+    op_index: usize,
+    /// length of the executed-statement log when the failure was recorded
+    log_pos: usize,
+}
+
+impl Fail {
+    fn sig(&self) -> String {
+        format!("C21/{}/{}/{}", self.kind, self.assertion, self.detail)
+    }
+}
+
+/// stable class of an error message: quoted identifiers and digits removed, first words
+pub fn err_class(e: &str) -> String {
+    let mut s = String::new();
+    let mut in_q = false;
+    for ch in e.chars() {
+        if ch == '\'' || ch == '"' {
+            in_q = !in_q;
+            continue;
+        }
+        if !in_q {
+            s.push(ch);
+        }
+    }
+    s.split(|c: char| !c.is_ascii_alphabetic()).filter(|w| !w.is_empty()).take(8).collect::<Vec<_>>().join("_").to_lowercase()
+}
+
+fn err_what(e: &str) -> String {
+    if is_panic(e) {
+        format!("panic:{}", panic_tag(e))
+    } else {
+        format!("error:{}", err_class(e))
+    }
+}
+
+/// compare a full-table result with the model table; None = equal
+fn diff_table(t: &MTab, got: &[Row], by_name: bool) -> Option<(String, J)> {
+    let pre = if by_name { "by_name_" } else { "" };
+    if got.iter().any(|r| r.len() != t.cols.len()) {
+        return Some((format!("{}width", pre), json!({"got_width": got.first().map(|r| r.len()), "want_width": t.cols.len(), "got": rows_json(got, 4)})));
+    }
+    if got.len() != t.rows.len() {
+        return Some((format!("{}row_count", pre), json!({"got": got.len(), "want": t.rows.len(), "got_rows": rows_json(got, 4), "want_rows": rows_json(&t.rows, 4)})));
+    }
+    let d = bag_diff(got, &t.rows)?;
+    // which columns differ? match rows through the primary key when there is one
+    let mut what = "values".to_string();
+    if t.pk_pos().is_none() {
+        if let Some(tp) = t.touched.as_ref().and_then(|n| t.col_pos(n)) {
+            // without a key: are the rows equal once the column the DDL touched is projected away?
+            let strip = |rows: &[Row]| -> Vec<Row> { rows.iter().map(|r| r.iter().enumerate().filter(|(i, _)| *i != tp).map(|(_, v)| v.clone()).collect()).collect() };
+            if bag_diff(&strip(got), &strip(&t.rows)).is_none() {
+                what = (if got.iter().all(|r| r[tp].is_null()) { "ddl_column_reads_null" } else { "ddl_column" }).to_string();
+            } else {
+                what = "other_columns".to_string();
+            }
+        }
+    }
+    if let Some(pk) = t.pk_pos() {
+        let mut differing: BTreeSet<usize> = BTreeSet::new();
+        let mut unmatched = false;
+        let mut touched_all_null = true;
+        for w in &t.rows {
+            match got.iter().find(|g| eq_sql(&g[pk], &w[pk])) {
+                None => unmatched = true,
+                Some(g) => {
+                    for i in 0..w.len() {
+                        if g[i].key(true) != w[i].key(true) {
+                            differing.insert(i);
+                            if !g[i].is_null() {
+                                touched_all_null = false;
+                            }
+                        }
+                    }
+                }
+            }
+        }
+        let tp = t.touched.as_ref().and_then(|n| t.col_pos(n));
+        what = if unmatched {
+            "row_identity".into()
+        } else if !differing.is_empty() && differing.iter().all(|i| Some(*i) == tp) {
+            if touched_all_null {
+                "ddl_column_reads_null".into()
+            } else {
+                "ddl_column".into()
+            }
+        } else {
+            "other_columns".into()
+        };
+    }
+    Some((format!("{}{}", pre, what), json!({"diff": d, "got": rows_json(got, 5), "want": rows_json(&t.rows, 5), "columns": t.cols.iter().map(|c| c.name.clone()).collect::<Vec<_>>()})))
+}
+
+/// full observation of one table against the model
+fn check_table(db: &mut Db, t: &MTab) -> Option<(String, J)> {
+    let sql = format!("SELECT * FROM {}", t.q);
+    match db.query(&sql) {
+        Err(e) => return Some((format!("select_star_{}", err_what(&e)), json!({"sql": sql, "error": e}))),
+        Ok(rows) => {
+            if let Some((w, j)) = diff_table(t, &rows, false) {
+                return Some((w, json!({"sql": sql, "d": j})));
+            }
+        }
+    }
+    let sql = format!("SELECT {} FROM {}", t.cols.iter().map(|c| c.name.clone()).collect::<Vec<_>>().join(", "), t.q);
+    match db.query(&sql) {
+        Err(e) => return Some((format!("by_name_{}", err_what(&e)), json!({"sql": sql, "error": e}))),
+        Ok(rows) => {
+            if let Some((w, j)) = diff_table(t, &rows, true) {
+                return Some((w, json!({"sql": sql, "d": j})));
+            }
+        }
+    }
+    let sql = format!("SELECT COUNT(*) FROM {}", t.q);
+    match db.query(&sql) {
+        Err(e) => return Some((format!("count_star_{}", err_what(&e)), json!({"sql": sql, "error": e}))),
+        Ok(rows) => {
+            let got = rows.first().and_then(|r| r.first()).cloned().unwrap_or(V::Null);
+            if !eq_sql(&got, &V::Int(t.rows.len() as i64)) {
+                return Some(("count_star".into(), json!({"sql": sql, "got": got.to_json(), "want": t.rows.len()})));
+            }
+        }
+    }
+    // index lookups: a present and an absent key per indexed column
+    for ix in &t.idx {
+        let Some(p) = t.col_pos(&ix.col) else { continue };
+        let ty = t.cols[p].ty;
+        if ty == Ty::Dbl || ty == Ty::Bool {
+            continue;
+        }
+        let mut keys: Vec<V> = vec![];
+        if let Some(v) = t.rows.iter().map(|r| &r[p]).find(|v| !v.is_null()) {
+            keys.push(v.clone());
+        }
+        if let Some(v) = t.rows.iter().rev().map(|r| &r[p]).find(|v| !v.is_null()) {
+            keys.push(v.clone());
+        }
+        keys.push(if ty == Ty::Text { V::Text("absent-key".into()) } else { V::Int(-987654) });
+        for k in keys {
+            let sql = format!("SELECT * FROM {} WHERE {} = {}", t.q, ix.col, k.sql());
+            let want: Vec<Row> = t.rows.iter().filter(|r| eq_sql(&r[p], &k)).cloned().collect();
+            match db.query(&sql) {
+                Err(e) => return Some((format!("index_lookup_{}", err_what(&e)), json!({"sql": short(&sql), "error": e}))),
+                Ok(rows) => {
+                    if let Some(d) = bag_diff(&rows, &want) {
+                        return Some(("index_lookup".into(), json!({"sql": short(&sql), "index": ix.name, "diff": d})));
+                    }
+                }
+            }
+        }
+    }
+    None
+}
+
+fn short(s: &str) -> String {
+    if s.len() > 300 {
+        format!("{}...<{} bytes>", &s[..200], s.len())
+    } else {
+        s.to_string()
+    }
+}
+
+// ---------------------------------------------------------------- running a history
+
+struct RunOut {
+    fails: Vec<Fail>,
+    /// (ddl kind -> number of times it was applied to a table holding rows and then checked)
+    ddl_on_data: BTreeMap<String, u64>,
+    executed: usize,
+    reopens: usize,
+    log: Vec<String>,
+}
+
+/// `burn`: after every reopen consume as many row ids as any earlier session used, so that the known
+/// "row-id counter restarts at 1 on open" defect (reported by C04) cannot mask DDL findings. Histories run
+/// without `burn` show that defect under one fixed signature.
+fn run_history(ops: &[Op], dir: &Path, burn: bool) -> RunOut {
+    let mut out = RunOut { fails: vec![], ddl_on_data: BTreeMap::new(), executed: 0, reopens: 0, log: vec![] };
+    let mut session_ids: usize = 0;
+    let mut max_key_bound: usize = 0;
+    let _ = std::fs::remove_dir_all(dir);
+    let mut m = Model::new();
+    let mut tainted: BTreeSet<String> = BTreeSet::new();
+    let mut db = match Db::create(dir) {
+        Ok(d) => Some(d),
+        Err(e) => {
+            out.fails.push(Fail { kind: "create_database".into(), assertion: "ddl_outcome", detail: err_what(&e), info: json!({"error": e}), op_index: 0, log_pos: 0 });
+            return out;
+        }
+    };
+    for (i, op) in ops.iter().enumerate() {
+        for f in out.fails.iter_mut().filter(|f| f.log_pos == 0) {
+            f.log_pos = out.log.len();
+        }
+        // skip everything that touches an object already reported as broken
+        let tkey = op.table().map(|s| s.to_string());
+        if let Some(q) = &tkey {
+            if tainted.contains(q) || schema_of(q).map(|s| tainted.contains(&format!("schema:{}", s))).unwrap_or(false) {
+                continue;
+            }
+        }
+        match op {
+            Op::CreateSchema { name, .. } | Op::DropSchema { name, .. } if tainted.contains(&format!("schema:{}", name)) => continue,
+            Op::DropIndex { name, .. } => {
+                let owner = m.tabs.values().find(|t| t.idx.iter().any(|x| &x.name == name)).map(|t| t.q.clone());
+                if tainted.contains(&format!("index:{}", name)) || owner.map(|o| tainted.contains(&o)).unwrap_or(false) {
+                    continue;
+                }
+            }
+            Op::CreateIndex { name, .. } if tainted.contains(&format!("index:{}", name)) => continue,
+            _ => {}
+        }
+        let had_rows = tkey.as_ref().and_then(|q| m.tabs.get(q)).map(|t| !t.rows.is_empty()).unwrap_or(false);
+        // the table a DROP INDEX acts on (for the post-check)
+        let idx_owner = if let Op::DropIndex { name, .. } = op { m.tabs.values().find(|t| t.idx.iter().any(|x| &x.name == name)).map(|t| t.q.clone()) } else { None };
+        let before = tkey.as_ref().and_then(|q| m.tabs.get(q)).map(|t| (t.last_ddl, t.variant.clone()));
+        let exp = m.apply(op);
+        if matches!(exp, Expect::Skip) {
+            continue;
+        }
+        out.executed += 1;
+        out.log.push(op.short_sql());
+        if let Op::Reopen { close } = op {
+            let d = db.take().unwrap();
+            if *close {
+                let _ = crate::report::catch(|| d.db.close());
+            }
+            drop(d);
+            out.reopens += 1;
+            match Db::open(dir) {
+                Err(e) => {
+                    out.fails.push(Fail { kind: "reopen".into(), assertion: "catalog_after_reopen", detail: format!("open_{}", err_what(&e)), info: json!({"error": e}), op_index: i, log_pos: 0 });
+                    return out;
+                }
+                Ok(d) => db = Some(d),
+            }
+            let d = db.as_mut().unwrap();
+            for t in m.tabs.values() {
+                if tainted.contains(&t.q) {
+                    continue;
+                }
+                if let Some((what, info)) = check_table(d, t) {
+                    out.fails.push(Fail { kind: t.last_ddl.to_string(), assertion: "catalog_after_reopen", detail: format!("{}:{}", t.variant, what), info, op_index: i, log_pos: 0 });
+                    tainted.insert(t.q.clone());
+                }
+            }
+            max_key_bound = max_key_bound.max(session_ids);
+            session_ids = 0;
+            if burn && max_key_bound > 0 {
+                let bt = format!("zz_burn{}", out.reopens);
+                let k = max_key_bound + 2;
+                let _ = d.exec(&format!("CREATE TABLE {} (id BIGINT PRIMARY KEY)", bt));
+                let vals: Vec<String> = (1..=k).map(|n| format!("({})", n)).collect();
+                let _ = d.exec(&format!("INSERT INTO {} (id) VALUES {}", bt, vals.join(", ")));
+                session_ids = k;
+                out.log.push(format!("-- (harness) CREATE TABLE {} (id BIGINT PRIMARY KEY); INSERT {} rows into it to advance the row-id counter", bt, k));
+            }
+            continue;
+        }
+        let d = db.as_mut().unwrap();
+        let sql = op.sql();
+        if let Op::Insert { rows, .. } = op {
+            session_ids += rows.len();
+        }
+        let got = d.exec(&sql);
+        // attribute: the op's own kind for DDL, else the last DDL of the table
+        let (kind, variant): (String, String) = if op.is_ddl() {
+            let v = match tkey.as_ref().and_then(|q| m.tabs.get(q)) {
+                Some(t) if matches!(exp, Expect::Ok) && t.last_ddl == op.kind() => t.variant.clone(),
+                _ => match op {
+                    Op::DropTable { ie, .. } | Op::DropIndex { ie, .. } | Op::DropSchema { ie, .. } | Op::DropColumn { ie, .. } => (if *ie { "if_exists" } else { "plain" }).to_string(),
+                    Op::CreateTable { ine, .. } | Op::CreateIndex { ine, .. } | Op::CreateSchema { ine, .. } => (if *ine { "if_not_exists" } else { "plain" }).to_string(),
+                    _ => "plain".to_string(),
+                },
+            };
+            (op.kind().to_string(), v)
+        } else {
+            match before {
+                Some((k, v)) => (k.to_string(), v),
+                None => ("no_table".to_string(), "plain".to_string()),
+            }
+        };
+        let assertion: &'static str = if op.is_ddl() { "ddl_outcome" } else { "future_rows" };
+        let opk = op.kind();
+        let mut fail: Option<(String, J)> = None;
+        match (&exp, &got) {
+            (_, Err(e)) if is_panic(e) => fail = Some((format!("{}_{}", opk, err_what(e)), json!({"sql": short(&sql), "panic": e}))),
+            (Expect::Err(why), Ok(_)) => fail = Some((format!("{}_missing_error_{}", opk, why.replace(' ', "_")), json!({"sql": short(&sql), "model_expects_error": why}))),
+            (Expect::Err(_), Err(_)) => {}
+            (_, Err(e)) => fail = Some((format!("{}_{}", opk, err_what(e)), json!({"sql": short(&sql), "error": e}))),
+            (Expect::Affected(n), Ok(Outcome::Dml(k, _))) => {
+                if n != k {
+                    fail = Some((format!("{}_rows_affected", opk), json!({"sql": short(&sql), "got": k, "want": n})));
+                }
+            }
+            (Expect::Rows(want), Ok(Outcome::Rows(rows))) => {
+                if let Some(dj) = bag_diff(rows, want) {
+                    let what = if rows.len() != want.len() {
+                        "select_row_count"
+                    } else if rows.iter().flatten().all(|v| v.is_null()) {
+                        "select_reads_null"
+                    } else {
+                        "select_values"
+                    };
+                    fail = Some((what.to_string(), json!({"sql": short(&sql), "diff": dj, "got": rows_json(rows, 5), "want": rows_json(want, 5)})));
+                }
+            }
+            _ => {}
+        }
+        if fail.is_none() {
+            // state check of the table the statement acted on (also after a correctly rejected statement)
+            let target = tkey.clone().or(idx_owner);
+            if let Some(q) = target {
+                if let Some(t) = m.tabs.get(&q) {
+                    if let Some((what, info)) = check_table(d, t) {
+                        let a = if op.is_ddl() { "existing_rows" } else { "future_rows" };
+                        let what = if op.is_ddl() { what } else { format!("after_{}_{}", opk, what) };
+                        out.fails.push(Fail { kind: kind.clone(), assertion: a, detail: format!("{}:{}", variant, what), info: json!({"after": short(&sql), "check": info}), op_index: i, log_pos: 0 });
+                        tainted.insert(q.clone());
+                    } else if op.is_ddl() && had_rows && matches!(exp, Expect::Ok) {
+                        let v = if t.last_ddl == op.kind() { if t.cov.is_empty() { t.variant.clone() } else { t.cov.clone() } } else { "rejected_or_noop".to_string() };
+                        *out.ddl_on_data.entry(format!("{}/{}", op.kind(), v)).or_insert(0) += 1;
+                    }
+                } else if matches!(op, Op::DropTable { .. }) && had_rows {
+                    *out.ddl_on_data.entry("drop_table/plain".to_string()).or_insert(0) += 1;
+                }
+            }
+        } else if let Some((what, info)) = fail {
+            let (mut kind, mut variant) = (kind, variant);
+            if matches!(op, Op::Insert { .. }) && matches!(exp, Expect::Err("column missing")) {
+                // INSERT naming a non-existent column: the same defect whatever DDL removed the name
+                kind = "any_table".into();
+                variant = "unknown_column".into();
+            } else if !burn && out.reopens > 0 && matches!(op, Op::Insert { .. }) && what.ends_with("error:key_already_exists") {
+                // row-id counter restarts at 1 on open (C04 finding): one signature, whatever the table's DDL history
+                kind = "reopen".into();
+                variant = "insert_after_reopen".into();
+            }
+            out.fails.push(Fail { kind, assertion, detail: format!("{}:{}", variant, what), info, op_index: i, log_pos: 0 });
+            match op {
+                Op::CreateSchema { name, .. } | Op::DropSchema { name, .. } => {
+                    tainted.insert(format!("schema:{}", name));
+                }
+                Op::DropIndex { name, .. } => {
+                    tainted.insert(format!("index:{}", name));
+                    if let Some(o) = idx_owner {
+                        tainted.insert(o);
+                    }
+                }
+                _ => {
+                    if let Some(q) = tkey {
+                        tainted.insert(q);
+                    }
+                }
+            }
+        }
+    }
+    for f in out.fails.iter_mut().filter(|f| f.log_pos == 0) {
+        f.log_pos = out.log.len();
+    }
+    if let Some(d) = db.take() {
+        let _ = crate::report::catch(|| d.db.close());
+    }
+    out
+}
+
+// ---------------------------------------------------------------- generation
+
+#[derive(Clone, Debug, Default)]
+struct Feats {
+    schema: bool,
+    drop_create: bool,
+    index: bool,
+    truncate: bool,
+    add_col: bool,
+    drop_col: bool,
+    rename_col: bool,
+    reopen: bool,
+    long_text: bool,
+    error_cases: bool,
+    /// advance the row-id counter after every reopen (see run_history)
+    burn: bool,
+}
+
+impl Feats {
+    fn tags(&self) -> Vec<&'static str> {
+        let mut v = vec![];
+        for (b, n) in [(self.schema, "schema"), (self.drop_create, "drop_create"), (self.index, "index"), (self.truncate, "truncate"), (self.add_col, "add_col"), (self.drop_col, "drop_col"), (self.rename_col, "rename_col"), (self.reopen, "reopen"), (self.long_text, "long_text"), (self.error_cases, "error_cases"), (self.burn, "burn_row_ids")] {
+            if b {
+                v.push(n);
+            }
+        }
+        v
+    }
+}
+
+struct Gen<'a> {
+    rng: &'a mut Rng,
+    m: Model,
+    ops: Vec<Op>,
+    f: Feats,
+    uniq: i64,
+    ncol: u32,
+    nidx: u32,
+    dropped_cols: Vec<(String, String)>,
+}
+
+const PAD: char = '~';
+
+impl<'a> Gen<'a> {
+    fn push(&mut self, op: Op) {
+        let _ = self.m.apply(&op);
+        self.ops.push(op);
+    }
+    fn next_uniq(&mut self) -> i64 {
+        self.uniq += 1;
+        self.uniq
+    }
+    fn val(&mut self, ty: Ty, nullable: bool) -> V {
+        if nullable && self.rng.chance(15, 100) {
+            return V::Null;
+        }
+        let u = self.next_uniq();
+        match ty {
+            Ty::Big => {
+                if self.rng.chance(1, 10) {
+                    V::Int(-(1_000_000_000_000 + u))
+                } else {
+                    V::Int(1000 + u * 7)
+                }
+            }
+            Ty::Int => V::Int(self.rng.range(-3, 8)),
+            Ty::Dbl => V::Float(u as f64 + 0.25),
+            Ty::Bool => V::Bool(self.rng.chance(1, 2)),
+            Ty::Text => {
+                if self.f.long_text && self.rng.chance(1, 4) {
+                    let len = *self.rng.pick(&[990usize, 999, 1000, 1001, 1024, 1500, 3000, 9000]);
+                    let mut s = format!("L{}-", u);
+                    while s.len() < len {
+                        s.push(PAD);
+                    }
+                    V::Text(s)
+                } else if self.rng.chance(1, 6) {
+                    V::Text(self.rng.pick(&["a", "b", "ab"]).to_string())
+                } else {
+                    V::Text(format!("v{}", u))
+                }
+            }
+        }
+    }
+    fn new_col(&mut self, ty: Ty) -> MCol {
+        self.ncol += 1;
+        MCol { name: format!("{}{}", ty.letter(), self.ncol), ty, default: None, not_null: false, pk: false }
+    }
+    fn any_ty(&mut self) -> Ty {
+        *self.rng.pick(&[Ty::Big, Ty::Big, Ty::Int, Ty::Dbl, Ty::Text, Ty::Text, Ty::Bool])
+    }
+    fn default_for(&mut self, ty: Ty) -> V {
+        match ty {
+            Ty::Big => V::Int(*self.rng.pick(&[7i64, -3, 0, 123456789012])),
+            Ty::Int => V::Int(*self.rng.pick(&[42i64, -1])),
+            Ty::Dbl => V::Float(*self.rng.pick(&[2.5f64, -0.75])),
+            Ty::Text => V::Text(self.rng.pick(&["dflt", "x"]).to_string()),
+            Ty::Bool => V::Bool(self.rng.chance(1, 2)),
+        }
+    }
+    fn tab_names(&self) -> Vec<String> {
+        self.m.tabs.keys().cloned().collect()
+    }
+    fn pick_tab(&mut self) -> Option<String> {
+        let n = self.tab_names();
+        if n.is_empty() {
+            None
+        } else {
+            Some(self.rng.pick(&n).clone())
+        }
+    }
+
+    fn create_table(&mut self, q: &str) {
+        let ncols = self.rng.usize(1, 4);
+        let mut cols = vec![];
+        for _ in 0..ncols {
+            let ty = self.any_ty();
+            let mut c = self.new_col(ty);
+            if self.rng.chance(1, 8) {
+                c.default = Some(self.default_for(ty));
+            }
+            cols.push(c);
+        }
+        let pk = MCol { name: "id".into(), ty: Ty::Big, default: None, not_null: true, pk: true };
+        // primary key first (usual), in the middle, or no primary key at all
+        let r = self.rng.below(10);
+        if r < 7 {
+            cols.insert(0, pk);
+        } else if r < 9 {
+            let p = self.rng.usize(1, cols.len());
+            cols.insert(p, pk);
+        }
+        let flag = self.f.error_cases && self.rng.chance(1, 6);
+        self.push(Op::CreateTable { q: q.to_string(), cols, ine: flag });
+    }
+
+    fn insert_rows(&mut self, q: &str, n: usize, omit: Option<&str>) {
+        let Some(t) = self.m.tabs.get(q).cloned() else { return };
+        let cols: Vec<MCol> = t.cols.iter().filter(|c| Some(c.name.as_str()) != omit).cloned().collect();
+        if cols.is_empty() {
+            return;
+        }
+        let mut rows = vec![];
+        for _ in 0..n {
+            let mut r = vec![];
+            for c in &cols {
+                if c.pk {
+                    let u = self.next_uniq();
+                    r.push(V::Int(u));
+                } else {
+                    r.push(self.val(c.ty, !c.not_null && c.default.is_none()));
+                }
+            }
+            rows.push(r);
+        }
+        self.push(Op::Insert { q: q.to_string(), cols: cols.iter().map(|c| c.name.clone()).collect(), rows });
+    }
+
+    /// a (column, value) usable as an equality key: primary key if any, else an INT/BIGINT/TEXT column
+    fn key_of(&mut self, t: &MTab, want_present: bool) -> Option<(String, V)> {
+        let cand: Vec<usize> = t.cols.iter().enumerate().filter(|(_, c)| c.pk || matches!(c.ty, Ty::Big | Ty::Int)).map(|(i, _)| i).collect();
+        if cand.is_empty() {
+            return None;
+        }
+        let p = match t.pk_pos() {
+            Some(p) if self.rng.chance(3, 4) => p,
+            _ => *self.rng.pick(&cand),
+        };
+        if want_present && !t.rows.is_empty() {
+            let vals: Vec<V> = t.rows.iter().map(|r| r[p].clone()).filter(|v| !v.is_null()).collect();
+            if !vals.is_empty() {
+                return Some((t.cols[p].name.clone(), self.rng.pick(&vals).clone()));
+            }
+        }
+        Some((t.cols[p].name.clone(), V::Int(-555)))
+    }
+
+    fn dml(&mut self, q: &str) {
+        let Some(t) = self.m.tabs.get(q).cloned() else { return };
+        let r = self.rng.below(10);
+        if r < 5 || t.rows.is_empty() {
+            let n = self.rng.usize(1, 4);
+            self.insert_rows(q, n, None);
+        } else if r < 8 {
+            let settable: Vec<MCol> = t.cols.iter().filter(|c| !c.pk).cloned().collect();
+            if settable.is_empty() {
+                return;
+            }
+            let c = self.rng.pick(&settable).clone();
+            let Some((kc, kv)) = self.key_of(&t, true) else { return };
+            let val = self.val(c.ty, !c.not_null && c.default.is_none());
+            self.push(Op::Update { q: q.to_string(), set_col: c.name, val, key_col: kc, key: kv });
+        } else {
+            let present = self.rng.chance(4, 5);
+            let Some((kc, kv)) = self.key_of(&t, present) else { return };
+            self.push(Op::Delete { q: q.to_string(), key_col: kc, key: kv });
+        }
+    }
+
+    /// statements that use the new shape (must work) and the old shape (must fail) after a DDL
+    fn probes_after(&mut self, q: &str, old_name: Option<String>, new_name: Option<String>) {
+        let Some(t) = self.m.tabs.get(q).cloned() else { return };
+        let mut old_shape_insert: Option<Op> = None;
+        if let Some(old) = &old_name {
+            // the old shape errors
+            self.push(Op::Select { q: q.to_string(), cols: vec![old.clone()], filter: None });
+            if self.rng.chance(1, 6) {
+                let mut cols: Vec<String> = t.cols.iter().map(|c| c.name.clone()).collect();
+                let mut row: Row = vec![];
+                for c in t.cols.clone() {
+                    if c.pk {
+                        let u = self.next_uniq();
+                        row.push(V::Int(u));
+                    } else {
+                        row.push(self.val(c.ty, false));
+                    }
+                }
+                // replace the new name by the old one (rename) or append the dropped column
+                match &new_name {
+                    Some(n) => {
+                        if let Some(p) = cols.iter().position(|c| c == n) {
+                            cols[p] = old.clone();
+                        }
+                    }
+                    None => {
+                        cols.push(old.clone());
+                        row.push(V::Int(1));
+                    }
+                }
+                old_shape_insert = Some(Op::Insert { q: q.to_string(), cols, rows: vec![row] });
+            }
+        }
+        if let Some(n) = &new_name {
+            // read and filter through the new name
+            self.push(Op::Select { q: q.to_string(), cols: vec![n.clone()], filter: None });
+            if let Some(p) = t.col_pos(n) {
+                if matches!(t.cols[p].ty, Ty::Big | Ty::Int | Ty::Text) {
+                    let v = t.rows.iter().map(|r| r[p].clone()).find(|v| !v.is_null()).or_else(|| t.cols[p].default.clone());
+                    if let Some(v) = v {
+                        self.push(Op::Select { q: q.to_string(), cols: vec![], filter: Some((n.clone(), v)) });
+                    }
+                }
+                // update the touched column of an existing row
+                if !t.cols[p].pk {
+                    if let Some((kc, kv)) = self.key_of(&t, true) {
+                        if &kc != n {
+                            let val = self.val(t.cols[p].ty, false);
+                            self.push(Op::Update { q: q.to_string(), set_col: n.clone(), val, key_col: kc, key: kv });
+                        }
+                    }
+                }
+            }
+        }
+        // insert with the full new shape, and (for an added column) omitting it
+        self.insert_rows(q, 1, None);
+        if let Some(n) = &new_name {
+            let c = t.cols.iter().find(|c| &c.name == n).cloned();
+            if let Some(c) = c {
+                if !c.pk && !(c.not_null && c.default.is_none()) && t.cols.len() > 1 {
+                    self.insert_rows(q, 1, Some(n));
+                } else if !c.pk && c.not_null && c.default.is_none() && self.f.error_cases {
+                    self.insert_rows(q, 1, Some(n)); // must be rejected
+                }
+            }
+        }
+        // update some other column of an existing row
+        if let Some(t2) = self.m.tabs.get(q).cloned() {
+            let others: Vec<MCol> = t2.cols.iter().filter(|c| !c.pk && Some(&c.name) != new_name.as_ref()).cloned().collect();
+            if !others.is_empty() && self.rng.chance(1, 2) {
+                let c = self.rng.pick(&others).clone();
+                if let Some((kc, kv)) = self.key_of(&t2, true) {
+                    let val = self.val(c.ty, false);
+                    self.push(Op::Update { q: q.to_string(), set_col: c.name, val, key_col: kc, key: kv });
+                }
+            }
+        }
+        // an INSERT that still names the old column must be rejected (last: it taints the table if accepted)
+        if let Some(op) = old_shape_insert {
+            self.push(op);
+        }
+    }
+
+    fn ddl(&mut self) {
+        let mut kinds: Vec<&'static str> = vec![];
+        if self.f.schema {
+            kinds.push("schema");
+        }
+        if self.f.drop_create {
+            kinds.extend(["drop_create", "drop_create"]);
+        }
+        if self.f.index {
+            kinds.extend(["create_index", "create_index", "drop_index"]);
+        }
+        if self.f.truncate {
+            kinds.push("truncate");
+        }
+        if self.f.add_col {
+            kinds.extend(["add_col", "add_col"]);
+        }
+        if self.f.drop_col {
+            kinds.extend(["drop_col", "drop_col"]);
+        }
+        if self.f.rename_col {
+            kinds.extend(["rename_col", "rename_col"]);
+        }
+        if self.f.error_cases {
+            kinds.push("error_case");
+        }
+        if kinds.is_empty() {
+            return;
+        }
+        let k = *self.rng.pick(&kinds);
+        match k {
+            "schema" => {
+                let name = format!("s{}", self.rng.usize(1, 2));
+                if !self.m.schemas.contains(&name) {
+                    let flag = self.rng.chance(1, 4);
+                    self.push(Op::CreateSchema { name: name.clone(), ine: flag });
+                    let q = format!("{}.t{}", name, self.rng.usize(1, 2));
+                    self.create_table(&q);
+                    let n = self.rng.usize(2, 6);
+                    self.insert_rows(&q, n, None);
+                } else {
+                    // empty it, drop it, and check that it is gone
+                    let inside: Vec<String> = self.m.tabs.keys().filter(|q| schema_of(q) == Some(name.as_str())).cloned().collect();
+                    for q in inside {
+                        self.push(Op::DropTable { q, ie: false });
+                    }
+                    let flag = self.rng.chance(1, 4);
+                    self.push(Op::DropSchema { name: name.clone(), ie: flag });
+                    self.push(Op::CreateTable { q: format!("{}.gone", name), cols: vec![MCol { name: "id".into(), ty: Ty::Big, default: None, not_null: true, pk: true }], ine: false });
+                }
+            }
+            "drop_create" => {
+                let Some(q) = self.pick_tab() else { return };
+                let flag = self.rng.chance(1, 4);
+                self.push(Op::DropTable { q: q.clone(), ie: flag });
+                // the dropped table is gone
+                self.push(Op::Select { q: q.clone(), cols: vec![], filter: None });
+                if self.rng.chance(3, 4) {
+                    self.create_table(&q);
+                    // old rows must not come back
+                    self.push(Op::Select { q: q.clone(), cols: vec![], filter: None });
+                    let n = self.rng.usize(1, 5);
+                    self.insert_rows(&q, n, None);
+                }
+            }
+            "create_index" => {
+                let Some(q) = self.pick_tab() else { return };
+                let t = self.m.tabs.get(&q).cloned().unwrap();
+                let cand: Vec<String> = t.cols.iter().filter(|c| !c.pk && matches!(c.ty, Ty::Big | Ty::Int | Ty::Text)).map(|c| c.name.clone()).collect();
+                if cand.is_empty() {
+                    return;
+                }
+                let col = self.rng.pick(&cand).clone();
+                // re-use a dropped index name now and then
+                self.nidx += 1;
+                let name = if self.rng.chance(1, 3) { format!("ix{}", self.rng.usize(1, 3)) } else { format!("ix{}", self.nidx + 3) };
+                if self.m.index_exists(&name) && !self.f.error_cases {
+                    return;
+                }
+                let ine = self.rng.chance(1, 4);
+                self.push(Op::CreateIndex { name, q: q.clone(), col, ine });
+                self.insert_rows(&q, 2, None);
+            }
+            "drop_index" => {
+                let names: Vec<String> = self.m.tabs.values().flat_map(|t| t.idx.iter().map(|i| i.name.clone())).collect();
+                if names.is_empty() {
+                    return;
+                }
+                let name = self.rng.pick(&names).clone();
+                let owner = self.m.tabs.values().find(|t| t.idx.iter().any(|i| i.name == name)).map(|t| t.q.clone()).unwrap();
+                let flag = self.rng.chance(1, 4);
+                self.push(Op::DropIndex { name: name.clone(), ie: flag });
+                if self.f.error_cases {
+                    self.push(Op::DropIndex { name, ie: false }); // second drop must fail
+                }
+                self.insert_rows(&owner, 1, None);
+            }
+            "truncate" => {
+                let Some(q) = self.pick_tab() else { return };
+                let flag = self.rng.chance(2, 3);
+                self.push(Op::Truncate { q: q.clone(), kw_table: flag });
+                let n = self.rng.usize(1, 4);
+                self.insert_rows(&q, n, None);
+            }
+            "add_col" => {
+                let Some(q) = self.pick_tab() else { return };
+                let t = self.m.tabs.get(&q).cloned().unwrap();
+                let ty = self.any_ty();
+                // now and then re-add a column that was dropped from this table (same name, same type)
+                let re: Vec<String> = self.dropped_cols.iter().filter(|(tq, c)| tq == &q && t.col_pos(c).is_none()).map(|(_, c)| c.clone()).collect();
+                let mut col = if !re.is_empty() && self.rng.chance(1, 2) {
+                    let name = self.rng.pick(&re).clone();
+                    let ty = match name.chars().next().unwrap() {
+                        'b' => Ty::Big,
+                        'i' => Ty::Int,
+                        'd' => Ty::Dbl,
+                        'x' => Ty::Text,
+                        _ => Ty::Bool,
+                    };
+                    MCol { name, ty, default: None, not_null: false, pk: false }
+                } else {
+                    self.new_col(ty)
+                };
+                let r = self.rng.below(10);
+                if r < 4 {
+                    col.default = Some(self.default_for(col.ty));
+                } else if r < 6 {
+                    col.default = Some(self.default_for(col.ty));
+                    col.not_null = true;
+                } else if r < 7 && t.rows.is_empty() {
+                    col.not_null = true;
+                }
+                let name = col.name.clone();
+                self.push(Op::AddColumn { q: q.clone(), col });
+                self.probes_after(&q, None, Some(name));
+            }
+            "drop_col" => {
+                let Some(q) = self.pick_tab() else { return };
+                let t = self.m.tabs.get(&q).cloned().unwrap();
+                let cand: Vec<String> = t.cols.iter().filter(|c| !c.pk).map(|c| c.name.clone()).collect();
+                if cand.is_empty() || t.cols.len() < 2 {
+                    return;
+                }
+                // prefer an indexed column sometimes
+                let indexed: Vec<String> = cand.iter().filter(|c| t.idx.iter().any(|i| &&i.col == c)).cloned().collect();
+                let col = if !indexed.is_empty() && self.rng.chance(1, 2) { self.rng.pick(&indexed).clone() } else { self.rng.pick(&cand).clone() };
+                let flag = self.rng.chance(1, 5);
+                self.push(Op::DropColumn { q: q.clone(), col: col.clone(), ie: flag });
+                self.dropped_cols.push((q.clone(), col.clone()));
+                self.probes_after(&q, Some(col), None);
+            }
+            "rename_col" => {
+                let Some(q) = self.pick_tab() else { return };
+                let t = self.m.tabs.get(&q).cloned().unwrap();
+                let cand: Vec<MCol> = t.cols.iter().filter(|c| !c.pk || self.f.error_cases).cloned().collect();
+                if cand.is_empty() {
+                    return;
+                }
+                let indexed: Vec<MCol> = cand.iter().filter(|c| t.idx.iter().any(|i| i.col == c.name)).cloned().collect();
+                let c = if !indexed.is_empty() && self.rng.chance(1, 2) { self.rng.pick(&indexed).clone() } else { self.rng.pick(&cand).clone() };
+                self.ncol += 1;
+                // the first letter keeps encoding the type
+                let new = if c.pk { format!("pk{}", self.ncol) } else { format!("{}{}r", c.ty.letter(), self.ncol) };
+                self.push(Op::RenameColumn { q: q.clone(), old: c.name.clone(), new: new.clone() });
+                self.probes_after(&q, Some(c.name), Some(new));
+            }
+            _ => {
+                // statements that must be rejected (or be no-ops with IF [NOT] EXISTS)
+                let r = self.rng.below(7);
+                let ie = self.rng.chance(1, 2);
+                match r {
+                    0 => self.push(Op::DropTable { q: "nosuch".into(), ie }),
+                    1 => self.push(Op::DropIndex { name: "nosuchix".into(), ie }),
+                    2 => self.push(Op::DropSchema { name: "nosuchschema".into(), ie }),
+                    3 => {
+                        if let Some(q) = self.pick_tab() {
+                            self.push(Op::DropColumn { q, col: "nosuchcol".into(), ie });
+                        }
+                    }
+                    4 => {
+                        if let Some(q) = self.pick_tab() {
+                            let cols = self.m.tabs[&q].cols.clone();
+                            self.push(Op::CreateTable { q, cols, ine: ie });
+                        }
+                    }
+                    5 => {
+                        if let Some(q) = self.pick_tab() {
+                            let c = self.rng.pick(&self.m.tabs[&q].cols.clone()).clone();
+                            if !c.pk {
+                                self.push(Op::AddColumn { q, col: MCol { default: None, not_null: false, ..c } });
+                            }
+                        }
+                    }
+                    _ => {
+                        if let Some(q) = self.pick_tab() {
+                            self.push(Op::RenameColumn { q, old: "nosuchcol".into(), new: "b999".into() });
+                        }
+                    }
+                }
+            }
+        }
+    }
+}
+
+fn gen_history(rng: &mut Rng, target: usize) -> (Vec<Op>, Feats) {
+    // stratified: every history draws a small subset of the DDL kinds
+    let mut f = Feats::default();
+    let n_feats = rng.usize(1, 3);
+    for _ in 0..n_feats {
+        match rng.below(7) {
+            0 => f.schema = true,
+            1 => f.drop_create = true,
+            2 => f.index = true,
+            3 => f.truncate = true,
+            4 => f.add_col = true,
+            5 => f.drop_col = true,
+            _ => f.rename_col = true,
+        }
+    }
+    f.reopen = rng.chance(2, 3);
+    f.long_text = rng.chance(1, 4);
+    f.error_cases = rng.chance(1, 4);
+    f.burn = rng.chance(3, 4);
+    let mut g = Gen { rng, m: Model::new(), ops: vec![], f: f.clone(), uniq: 0, ncol: 0, nidx: 0, dropped_cols: vec![] };
+    let ntab = g.rng.usize(1, 2);
+    for i in 0..ntab {
+        let q = format!("t{}", i + 1);
+        g.create_table(&q);
+        let n = g.rng.usize(0, 8);
+        if n > 0 {
+            g.insert_rows(&q, n, None);
+        }
+    }
+    let mut guard = 0;
+    while g.ops.len() < target && guard < 400 {
+        guard += 1;
+        if g.m.tabs.is_empty() {
+            g.create_table("t1");
+            continue;
+        }
+        let r = g.rng.below(100);
+        if r < 40 {
+            g.ddl();
+        } else if r < 50 && g.f.reopen {
+            let close = g.rng.chance(1, 2);
+            g.push(Op::Reopen { close });
+        } else if let Some(q) = g.pick_tab() {
+            g.dml(&q);
+        }
+    }
+    if g.f.reopen {
+        let close = g.rng.chance(1, 2);
+        g.push(Op::Reopen { close });
+        // the reopened database accepts the new shape
+        for q in g.tab_names() {
+            g.insert_rows(&q, 1, None);
+        }
+    }
+    let f = g.f.clone();
+    (g.ops, f)
+}
+
+// ---------------------------------------------------------------- shrinking
+
+/// ddmin over the operation list: smallest sub-history (found within the budget) that still yields `sig`
+fn shrink(ops: &[Op], sig: &str, dir: &Path, budget: usize, burn: bool) -> Vec<Op> {
+    let mut cur: Vec<Op> = ops.to_vec();
+    let mut runs = 0usize;
+    let mut fails_with = |cand: &[Op], runs: &mut usize| -> bool {
+        *runs += 1;
+        run_history(cand, dir, burn).fails.iter().any(|f| f.sig() == sig)
+    };
+    // cut everything after the failing operation first
+    if let Some(f) = run_history(&cur, dir, burn).fails.iter().find(|f| f.sig() == sig) {
+        cur.truncate(f.op_index + 1);
+    }
+    let mut n = 2usize;
+    while cur.len() >= 2 && runs < budget {
+        let chunk = (cur.len() + n - 1) / n;
+        let mut reduced = false;
+        let mut start = 0;
+        while start < cur.len() && runs < budget {
+            let end = (start + chunk).min(cur.len());
+            let cand: Vec<Op> = cur[..start].iter().chain(cur[end..].iter()).cloned().collect();
+            if !cand.is_empty() && fails_with(&cand, &mut runs) {
+                cur = cand;
+                n = n.saturating_sub(1).max(2);
+                reduced = true;
+                break;
+            }
+            start = end;
+        }
+        if !reduced {
+            if chunk <= 1 {
+                break;
+            }
+            n = (n * 2).min(cur.len());
+        }
+    }
+    // shrink multi-row inserts to a single row
+    let mut i = 0;
+    while i < cur.len() && runs < budget {
+        if let Op::Insert { q, cols, rows } = &cur[i] {
+            if rows.len() > 1 {
+                let mut cand = cur.clone();
+                cand[i] = Op::Insert { q: q.clone(), cols: cols.clone(), rows: vec![rows[0].clone()] };
+                if fails_with(&cand, &mut runs) {
+                    cur = cand;
+                    continue;
+                }
+            }
+        }
+        i += 1;
+    }
+    cur
+}
+
+// ---------------------------------------------------------------- entry point
+
+/// `tv C21 "<stmt>" "@reopen" "<stmt>" ...`: run statements on a fresh scratch database and print the results
+/// (`@reopen` = drop the handle + Database::open, `@close_reopen` = close() first, `@checkpoint`). Replay aid.
+fn probe_mode(stmts: &[String]) -> i32 {
+    let scratch = Scratch::new("c21probe");
+    let dir = scratch.dir("db");
+    let mut db = Some(Db::create(&dir).expect("create"));
+    for s in stmts {
+        println!("> {}", s);
+        match s.as_str() {
+            "@reopen" | "@close_reopen" => {
+                let d = db.take().unwrap();
+                if s == "@close_reopen" {
+                    println!("  close: {:?}", crate::report::catch(|| d.db.close().map(|_| ()).map_err(|e| format!("{:#}", e))));
+                }
+                drop(d);
+                match Db::open(&dir) {
+                    Ok(d) => {
+                        println!("  opened");
+                        db = Some(d)
+                    }
+                    Err(e) => {
+                        println!("  OPEN ERR {}", e);
+                        return 1;
+                    }
+                }
+            }
+            "@checkpoint" => {
+                let d = db.as_mut().unwrap();
+                println!("  {:?}", crate::report::catch(|| d.db.checkpoint().map(|c| c.frames_checkpointed).map_err(|e| format!("{:#}", e))));
+            }
+            _ => match db.as_mut().unwrap().exec(s) {
+                Ok(o) => println!("  {}", format!("{:?}", o).chars().take(600).collect::<String>()),
+                Err(e) => println!("  ERR {}", e),
+            },
+        }
+    }
+    0
+}
+
+pub fn run(a: &Args) -> i32 {
+    if !a.rest.is_empty() {
+        return probe_mode(&a.rest);
+    }
+    let mut ctx = Ctx::new(
+        "C21",
+        &a.tier,
+        a.seed,
+        "exploration",
+        "generated histories (12..45 statements, 1..3 tables incl. schema-qualified ones, primary key first / in the middle / absent, BIGINT/INT/DOUBLE/TEXT/BOOLEAN columns, NULLs, optional TEXT values around the 1000-byte TOAST threshold) interleaving simple DML with a stratified subset of DDL kinds: CREATE/DROP TABLE incl. re-creating a dropped name, CREATE/DROP INDEX incl. IF [NOT] EXISTS and re-used names, CREATE/DROP SCHEMA, TRUNCATE, ALTER TABLE ADD COLUMN (plain / DEFAULT / NOT NULL DEFAULT / re-adding a dropped name), DROP COLUMN (first/middle/last, indexed), RENAME COLUMN (plain, indexed, primary key), statements that must be rejected, and close/drop + Database::open at random points. A catalog+rows model predicts ok/error, rows_affected, and after every statement the table's SELECT * / SELECT <names> (width and bag), COUNT(*) and equality lookups on indexed columns; after each DDL extra statements use the new shape (must work) and the old shape (must fail). A failing history is shrunk by ddmin. distinct_nontrivial = distinct histories (hash of the statement list) in which at least one DDL was applied to a table that held rows and the table was then fully checked",
+    );
+    let mut master = Rng::derive(a.seed, 21);
+    let quick = ctx.quick();
+    let budget_s = if quick { 40.0 } else { 480.0 };
+    let max_hist = if cfg!(miri) { 0 } else if quick { 600 } else { 12000 };
+    let max_shrinks = if quick { 5 } else { 40 };
+    let scratch = Scratch::new("c21");
+    // every history gets its own generator seeded from the C21 stream; workers only overlap the fsync waits
+    let seeds: std::sync::Arc<Vec<u64>> = std::sync::Arc::new((0..max_hist).map(|_| master.next()).collect());
+    let next = std::sync::Arc::new(std::sync::atomic::AtomicUsize::new(0));
+    let stop = std::sync::Arc::new(std::sync::atomic::AtomicBool::new(false));
+    let (tx, rx) = std::sync::mpsc::channel::<(Vec<Op>, Feats, RunOut)>();
+    let nthreads = 6;
+    let mut handles = vec![];
+    for w in 0..nthreads {
+        let (seeds, next, stop, tx) = (seeds.clone(), next.clone(), stop.clone(), tx.clone());
+        let dir = scratch.root.join(format!("w{}", w));
+        handles.push(std::thread::spawn(move || loop {
+            if stop.load(std::sync::atomic::Ordering::Relaxed) {
+                break;
+            }
+            let idx = next.fetch_add(1, std::sync::atomic::Ordering::Relaxed);
+            if idx >= seeds.len() {
+                break;
+            }
+            let mut rng = Rng::new(seeds[idx]);
+            let target = rng.usize(12, 45);
+            let (ops, feats) = gen_history(&mut rng, target);
+            let out = run_history(&ops, &dir, feats.burn);
+            if tx.send((ops, feats, out)).is_err() {
+                break;
+            }
+        }));
+    }
+    drop(tx);
+    let mut shrunk: BTreeSet<String> = BTreeSet::new();
+    let mut first_of_sig: BTreeMap<String, J> = BTreeMap::new();
+    let mut ddl_totals: BTreeMap<String, u64> = BTreeMap::new();
+    let mut feat_totals: BTreeMap<&'static str, u64> = BTreeMap::new();
+    for (ops, feats, out) in rx {
+        if ctx.elapsed() > budget_s {
+            stop.store(true, std::sync::atomic::Ordering::Relaxed);
+        }
+        ctx.evals(out.executed as u64);
+        ctx.count("histories", 1);
+        ctx.count("reopens", out.reopens as u64);
+        for t in feats.tags() {
+            *feat_totals.entry(t).or_insert(0) += 1;
+        }
+        let mut any_ddl_on_data = false;
+        for (k, n) in &out.ddl_on_data {
+            *ddl_totals.entry(k.clone()).or_insert(0) += n;
+            any_ddl_on_data = true;
+        }
+        if any_ddl_on_data {
+            let text: String = ops.iter().map(|o| o.sql()).collect::<Vec<_>>().join(";");
+            ctx.nontrivial(fnv(text.as_bytes()));
+        }
+        if out.fails.is_empty() && ctx.samples.len() < 4 && any_ddl_on_data {
+            ctx.sample(json!({"features": feats.tags(), "history": out.log.iter().take(30).collect::<Vec<_>>()}));
+        }
+        let mut seen_here: BTreeSet<String> = BTreeSet::new();
+        for f in &out.fails {
+            let sig = f.sig();
+            if !seen_here.insert(sig.clone()) {
+                continue;
+            }
+            let known = ctx.is_known(&sig).is_some();
+            let mut minimal: Option<Vec<String>> = None;
+            let mut minimal_info: Option<J> = None;
+            if !known && !shrunk.contains(&sig) && shrunk.len() < max_shrinks && ctx.elapsed() < budget_s {
+                shrunk.insert(sig.clone());
+                let sdir = scratch.dir("shrink");
+                let small = shrink(&ops, &sig, &sdir, if quick { 50 } else { 150 }, feats.burn);
+                let again = run_history(&small, &sdir, feats.burn);
+                minimal_info = again.fails.iter().find(|x| x.sig() == sig).map(|x| x.info.clone());
+                minimal = Some(small.iter().map(|o| o.short_sql()).collect());
+            }
+            if !known && (!first_of_sig.contains_key(&sig) || (minimal.is_some() && first_of_sig[&sig].get("minimal_history").map(|m| m.is_null()).unwrap_or(true))) && first_of_sig.len() < 80 {
+                let upto = if f.log_pos == 0 { out.log.len() } else { f.log_pos.min(out.log.len()) };
+                first_of_sig.insert(sig.clone(), json!({"minimal_history": minimal.clone(), "minimal_info": minimal_info.clone(), "info": f.info, "history_tail": out.log[..upto].iter().rev().take(12).rev().collect::<Vec<_>>()}));
+            }
+            ctx.violation(
+                f.assertion,
+                &sig,
+                json!({
+                    "features": feats.tags(),
+                    "failing_statement_index": f.op_index,
+                    "info": f.info,
+                    "history": out.log,
+                    "minimal_history": minimal,
+                    "minimal_info": minimal_info,
+                }),
+            );
+        }
+    }
+    for h in handles {
+        let _ = h.join();
+    }
+    ctx.extra.insert("ddl_applied_to_tables_with_rows_and_checked".into(), json!(ddl_totals));
+    ctx.extra.insert("histories_by_feature".into(), json!(feat_totals));
+    if !first_of_sig.is_empty() {
+        ctx.extra.insert("unexplained_first_of_signature".into(), json!(first_of_sig));
+    }
+    ctx.assumptions.push("NOT NULL without DEFAULT is only added to empty tables; DROP SCHEMA only on empty schemas; primary-key columns are never dropped; RENAME to an existing name, explicit NULL into a DEFAULT column, UNIQUE indexes and one index name on two tables are not generated (undocumented or owned by other properties); text compares bytewise; in 3/4 of the histories the harness advances the row-id counter after each reopen (C04 finding: the counter restarts at 1 on open), the rest show that defect under C21/reopen/future_rows/insert_after_reopen:*".into());
+    ctx.finish()
 }
